@@ -25,8 +25,48 @@ VMF = ["-I@BUILD@/shim_small", "-DVERIF_KINDFOLD=1", "-DVERIF_GC=1"]
 VMDIR = os.path.join(core.BUILD, "C02", "vm")
 
 
+from vlib import gcbalance
+BALDIR = os.path.join(core.BUILD, "C02", "bal")
+BAL_FILES = ["sexp.c", "eval.c", "bignum.c", "vm.c", "lib/srfi/69/hash.c", "lib/srfi/95/qsort.c", "lib/srfi/18/threads.c", "lib/srfi/39/param.c", "lib/srfi/151/bit.c", "lib/chibi/weak.c", "lib/chibi/ast.c"]
+BAL_SKIP = {"sexp_apply": "the VM loop registers self/tmp1/tmp2 once and releases them at end_loop; its opcode bodies are checked one by one (vmextract re-creates the registration)",
+            "sexp_update_string_index_lookup": "not compiled in the default configuration (SEXP_USE_STRING_INDEX_TABLE off)",
+            "sexp_user_exception_ls": "variadic: no harness generated",
+            "generate_tail_jump": "not compiled in the default configuration",
+            "sexp_init_library": "library initialisation entry point (takes the ABI identifier, an array type, by value); runs once at load time"}
+BAL_UNWIND = {"sexp_init_context_globals": 64, "sexp_make_null_env_op": 40}      # runs fixed-count initialisation loops to their end before it returns
+BAL_SLOW = {"sexp_write_one", "sexp_read_number", "sexp_read_raw", "sexp_init_context_globals", "sexp_strip_synclos_bound", "analyze_lambda", "analyze", "sexp_free_vars", "sexp_quotient", "sexp_compare", "sexp_merge_sort_less"}      # thorough tier only
+
+
 def prepare(tier):
     vmextract.write_ops(VMDIR, ["CONS", "CALLCC", "RESUMECC"], [f.replace("@BUILD@", core.BUILD) for f in VMF])
+    # the balance harnesses are regenerated from the current sources on every run; the instance lists below were
+    # computed at import time from the same sources, a mismatch is reported by the must-fire rule of havoc_keep
+    for rel in BAL_FILES:
+        gcbalance.generate(BALDIR, rel, BAL_SKIP)
+
+
+def _bal_groups():
+    out = []
+    total = 0
+    for rel in BAL_FILES:
+        try:
+            fns = [n for n, _ in gcbalance.functions(os.path.join(core.REPO, rel)) if n not in BAL_SKIP]
+        except OSError:
+            fns = []
+        total += len(fns)
+        if not fns:
+            continue
+        tag = rel.replace("/", "_").replace(".c", "")
+        out.append({"name": "gc_balance_" + tag, "label": "bounded", "harness": os.path.join(BALDIR, "gcbal_" + __import__("re").sub(r"\W", "_", rel) + ".c"),
+                    "flags": ["-I@BUILD@/shim_small"], "cbmc": ["--no-standard-checks", "--drop-unused-functions"], "unwind": 3, "unwinding_assertions": False,
+                    "min_obligations": 1, "timeout": 120, "mem_gb": 2,
+                    "ignore_desc_re": "no candidates for dereferenced function pointer",      # a call through an arbitrary function pointer: artefact of the arbitrary arguments
+                    "functions": [rel + ":" + f for f in fns],
+                    "bound": "every loop of the function under contract unrolled twice without unwinding assertion (longer iterations are not explored); arguments and all memory they point to arbitrary",
+                    "assumptions": ["every callee returns an arbitrary value and leaves the save chain as it found it (the contract being checked, assumed for callees; generated by goto-instrument --generate-function-body nondet-return)",
+                                    "pointer arguments are arbitrary addresses; reads through them return arbitrary values (standard pointer checks off: only the balance assertion is decided here)"],
+                    "instances": [dict({"name": f, "entry": "h_bal_" + f, "havoc_keep": [f]}, **(dict(unwind=BAL_UNWIND[f]) if f in BAL_UNWIND else {}), **(dict(tiers=["thorough"], timeout=900, timeout_thorough=1800) if f in BAL_SLOW else {})) for f in fns]})
+    return out
 
 
 GROUPS.append({"name": "vm_cons", "label": "proved", "harness": "harness/C02/vm_gc.c", "entry": "h_cons_gc", "flags": VMF + ["-I@BUILD@/C02/vm"],
@@ -41,11 +81,13 @@ GROUPS.append({"name": "vm_callcc", "label": "bounded", "harness": "harness/C06/
                "bound": "live stack of 13 or 14 slots; contents symbolic",
                "assumptions": ["alloc_gc on the VM side in sexp_make_vector / sexp_make_procedure (roots: stack below the published top, self/tmp1/tmp2 on ctx->saves, closure through tracked vectors and pairs)"],
                "instances": [{"name": "nt%d" % nt, "defs": {"NT": nt, "CAPTURE_ONLY": 1}} for nt in (0, 1)]})
+GROUPS += _bal_groups()
 META = {
  "trusted_base": ["CBMC 6.11.0 front end and SAT back end", "the adversarial collector of harness/bn.h and harness/vm/vm.h (harness code): reclaims and havocs every tracked object not reachable from the registered roots at EVERY allocation",
                   "vlib/vmextract.py opcode extraction (re-creates sexp_apply's root registration of self/tmp1/tmp2 around each body)"],
  "assumptions": ["arguments are caller-rooted", "reachability is exact for the tracked object kinds (bignums hold no references; pairs and the two continuation vectors are traced)",
                  "a reclaimed object is detected by consequence: its storage becomes arbitrary, so a later use breaks a safety or functional obligation, and returning it breaks gc.result_live"],
- "not_covered": ["the collector itself (mark phase) - see C10 for sweep and allocation", "allocating functions not listed under functions_under_contract (most of bignum.c beyond fxmul/add_fixnum/add_digits/sub_digits incl. Karatsuba sexp_bignum_mul with its 7 preserved variables, quot_rem, expt, sqrt; sexp.c constructors; eval.c; hash.c; qsort.c; json.c; port.c)",
+ "not_covered": ["gc_balance decides only that every function leaves the save chain as it found it (no dangling or dropped registration); whether each live local IS registered at every allocation is decided only for the functions of the adversarial-collector groups",
+                 "the collector itself (mark phase) - see C10 / C16 for sweep, allocation and the weak pass", "allocating functions not listed under functions_under_contract (most of bignum.c beyond fxmul/add_fixnum/add_digits/sub_digits incl. Karatsuba sexp_bignum_mul with its 7 preserved variables, quot_rem, expt, sqrt; sexp.c constructors; eval.c; hash.c; qsort.c; json.c; port.c)",
                  "the reader and the compiler (sexp_read_raw, generate_* literal preservation)", "generated FFI stubs", "Scheme-level code"],
 }
